@@ -105,6 +105,9 @@ def getattr_lib(M, interp, obj, name, node):
     from .models_np import NP_NAN, IndexSet
     if isinstance(obj, ExtRef):
         path = obj.path + '.' + name
+        from . import models_pp
+        if path in models_pp.CONSTS:
+            return models_pp.CONSTS[path]         # `import pyparsing as pp; pp.alphanums`
         if path in NP_CONSTS:
             c = NP_CONSTS[path]
             return NP_NAN if c == 'NAN' else c
